@@ -161,6 +161,28 @@ def run(ctx, prog):
                     absent = any(is_find_end(c, '==') or (c[0] == 'not' and is_find_end(c[1], '!=')) for c in o.conds)
                     if not freed and not absent:
                         bad.append(e[2])
+        # a registered object that is deleted must have its map entry replaced before the function is left (return or fatal exit)
+        dangling = []
+        for o in outs + E.trace.exit_paths:
+            evs = []
+
+            def flat2(es):
+                for e in es:
+                    if e[0] == 'loop':
+                        for k_, c_, sub in e[1][1]:
+                            if k_ in ('fall', 'cont'):
+                                flat2(sub)
+                    else:
+                        evs.append(e)
+            flat2(o.events)
+            for i, e in enumerate(evs):
+                if e[0] == 'delete' and '_master_map' in terms.fmt(e[1]):
+                    if not any(x[0] == 'write' and x[1] == '_master_map' for x in evs[i + 1:]):
+                        dangling.append((e[2], o.kind))
+        ctx.ob('C19.O1', 'init_mms-no-dangling-entry|' + sc, not dangling, im.where,
+               'init_mms deletes a registered solution at %s and can leave the function (%s) without replacing its map entry: dangling pointer, later use-after-free / double delete' % (
+                   dangling[0][0] if dangling else '', 'fatal exit' if dangling and dangling[0][1] == 'exit' else 'return'),
+               sample='every deleted registered object has its entry replaced on the same path')
         ctx.ob('C19.O1', 'init_mms-overwrite|' + sc, not bad, im.where,
                'init_mms overwrites _master_map[%s] at %s without deleting the object previously registered under that handle: re-initialising a handle leaks it' % (key, bad[:1]),
                sample='old object deleted before the map entry is replaced')
